@@ -73,14 +73,37 @@ Definition compiled_diff (c : compiled) (rq : query) (rlabels : list (uid * stri
   (if forallb (fun u => String.eqb (label (c_labels c) u) (label rlabels u)) (q_select (c_q c)) then [] else [10%nat]) ++
   (if subset_u (c_scope c) rscope && subset_u rscope (c_scope c) then [] else [11%nat]).
 
+(* the select lists that the real compile_ast hands to sqlalchemy.union / union_all, two per union: the left
+   list is the left operand's select list (possibly pruned to the columns needed later when the operand is
+   a subquery) and the right list is the left list's column NAMES looked up among the right operand's
+   visible columns *)
+Fixpoint subseq_u (a b : list uid) : bool :=
+  match a, b with
+  | [], _ => true
+  | _ :: _, [] => false
+  | x :: a', y :: b' => if N.eqb x y then subseq_u a' b' else subseq_u a b'
+  end.
+Fixpoint unions_ok (info : list (compiled * compiled)) (rlog : list (list uid)) : bool :=
+  match info, rlog with
+  | [], [] => true
+  | (cl, cr) :: info', rl :: rr :: rlog' =>
+      subseq_u rl (q_select (c_q cl))
+      && match map_opt (by_name cr) (map (label (c_labels cl)) rl) with
+         | Some x => list_eqb2 N.eqb x rr
+         | None => false
+         end
+      && unions_ok info' rlog'
+  | _, _ => false
+  end.
+
 (* outcome for one real AST: (in the model's domain?, differences, satisfies flat_ok?)
-   12: the select lists handed to compile_query for the operands of the unions (cq_log) differ *)
+   12: the select lists of the operands of the unions differ *)
 Definition l3_check (a : ast) (rq : query) (rlabels : list (uid * string)) (rscope : list uid)
            (rlog : list (list uid)) : nat * list nat * nat :=
   match compile a with
   | Some c => (1%nat,
                (compiled_diff c rq rlabels rscope
-                ++ (if list_eqb2 (list_eqb2 N.eqb) (cq_log a) rlog then [] else [12%nat]))%list,
+                ++ (if unions_ok (union_info a) rlog then [] else [12%nat]))%list,
                if flat_ok a then 1%nat else 0%nat)
   | None => (0%nat, [], 0%nat)
   end.
